@@ -44,6 +44,12 @@ Definition ok_b (r : option err_kind) : bool :=
 
 Definition is_nil (s : str) : bool := match s with [] => true | _ => false end.
 
+(* s[0] == c / s[i] == c, false when the index is out of range (the Go code guards it) *)
+Definition head_is (c : Z) (s : str) : bool :=
+  match s with x :: _ => x =? c | [] => false end.
+Definition byte_at_is (i : nat) (c : Z) (s : str) : bool :=
+  match nth_error s i with Some x => x =? c | None => false end.
+
 (* the switch on kind inside checkElem's character loop *)
 Definition char_ok (k : kind) (r : Z) : bool :=
   match k with
@@ -108,8 +114,7 @@ Definition tilde_digits (short : str) : bool :=
 Definition check_elem (k : kind) (elem : str) : option err_kind :=
   if is_nil elem then Some EEmptyElem
   else if forallb (fun c => c =? 46) elem then Some EAllDots
-  else if (match elem with 46 :: _ => true | _ => false end)
-          && (match k with KModule => true | _ => false end) then Some ELeadingDot
+  else if head_is 46 elem && (match k with KModule => true | _ => false end) then Some ELeadingDot
   else if last elem 0 =? 46 then Some ETrailingDot
   else if negb (forallb (char_ok k) (runes elem)) then Some EInvalidChar
   else
@@ -142,8 +147,7 @@ Fixpoint first_err (k : kind) (elems : list str) : option err_kind :=
 Definition check_path (k : kind) (p : str) : option err_kind :=
   if negb (valid p) then Some EInvalidUtf8
   else if is_nil p then Some EEmpty
-  else if (match p with 45 :: _ => true | _ => false end)
-          && (match k with KFile => false | _ => true end) then Some ELeadingDash
+  else if head_is 45 p && (match k with KFile => false | _ => true end) then Some ELeadingDash
   else if contains_dslash p then Some EDoubleSlash
   else if last p 0 =? 47 then Some ETrailingSlash
   else first_err k (split_on 47 p).
@@ -167,14 +171,15 @@ Definition split_gopkgin (p : str) : str * str * bool :=
     let body_rev := if uns then skipn (length unstable) (rev p) else rev p in
     let (digits_rev, rest_rev) := span is_digit body_rev in
     match rest_rev with
-    | 118 :: 46 :: pre_rev =>
-        let pm := 46 :: 118 :: rev digits_rev ++ (if uns then unstable else []) in
-        if (len pm <=? 2)
-           || (match pm with _ :: _ :: 45 :: _ => true | _ => false end)
-           || ((match pm with _ :: _ :: 48 :: _ => true | _ => false end)
-               && negb (str_eqb pm (B ".v0")))
-        then (p, [], false)
-        else (rev pre_rev, pm, true)
+    | a :: b :: pre_rev =>
+        if (a =? 118) && (b =? 46) then
+          let pm := 46 :: 118 :: rev digits_rev ++ (if uns then unstable else []) in
+          if (len pm <=? 2)
+             || byte_at_is 2 45 pm
+             || (byte_at_is 2 48 pm && negb (str_eqb pm (B ".v0")))
+          then (p, [], false)
+          else (rev pre_rev, pm, true)
+        else (p, [], false)
     | _ => (p, [], false)
     end.
 
@@ -185,14 +190,16 @@ Definition split_path_version (p : str) : str * str * bool :=
   else
     let (tail_rev, rest_rev) := span digit_or_dot (rev p) in
     match tail_rev, rest_rev with
-    | _ :: _, 118 :: 47 :: pre_rev =>
-        let pm := 47 :: 118 :: rev tail_rev in
-        if contains_byte 46 tail_rev
-           || (len pm <=? 2)
-           || (match pm with _ :: _ :: 48 :: _ => true | _ => false end)
-           || str_eqb pm (B "/v1")
-        then (p, [], false)
-        else (rev pre_rev, pm, true)
+    | _ :: _, a :: b :: pre_rev =>
+        if (a =? 118) && (b =? 47) then
+          let pm := 47 :: 118 :: rev tail_rev in
+          if contains_byte 46 tail_rev
+             || (len pm <=? 2)
+             || byte_at_is 2 48 pm
+             || str_eqb pm (B "/v1")
+          then (p, [], false)
+          else (rev pre_rev, pm, true)
+        else (p, [], true)
     | _, _ => (p, [], true)
     end.
 
@@ -208,7 +215,7 @@ Definition check_module_path (p : str) : option err_kind :=
       let fe := first_elem p in
       if is_nil fe then Some ELeadingSlash
       else if negb (contains_byte 46 fe) then Some EMissingDot
-      else if (match p with 45 :: _ => true | _ => false end) then Some EFirstLeadingDash
+      else if head_is 45 p then Some EFirstLeadingDash
       else if negb (forallb module_firstPathOK (runes fe)) then Some EFirstInvalidChar
       else match split_path_version p with
            | (_, _, true) => None
